@@ -3,7 +3,7 @@
     enforced by rejection): every field of [make_enumerator] in closed form (the
     memo tables of the weighted counter up to validity).  Proof file. *)
 From Coq Require Import ZArith List Bool Arith Lia.
-From SP Require Import Design.Flat Design.Layout Comb.CombModel Random.Enum Random.Frag Random.RunLemmas Random.FragPerm.
+From SP Require Import Design.Flat Design.Layout Comb.CombModel Random.Enum Random.Frag Random.RunLemmas Random.FragPerm Random.KeysCount.
 From SP Require Comb.CombSpec Comb.PermProofs Comb.StackProofs Comb.SessionProofs Comb.TotalProofs.
 From SP Require Export Random.ListFacts.
 Import ListNotations.
@@ -18,7 +18,7 @@ Local Notation c := (the_crossing fb).
 Local Notation n := (length (fl_design fb)).
 Local Notation w := (the_weight fb).
 (** the admitted level combinations of the crossing, and the admitted levels of a factor *)
-Definition f0_cprod : list (list nat) := allowed_combos fb (the_crossing fb).
+Definition f0_cprod : list (list nat) := allowed_combos2 fb (the_crossing fb).
 Definition f0_q : nat := length f0_cprod.
 Definition f0_L (g : nat) : list nat := nonexcluded_levels fb g.
 (** the weight of a combination, the block's crossing size and the length of a round *)
@@ -41,7 +41,7 @@ Record f0_facts : Prop := {
   f0_sizes : fl_sizes fb = f0_s :: tl (fl_sizes fb);
   f0_sizes_len : length (fl_sizes fb) = length (fl_crossings fb);
   f0_size_ok : forall ci si, In (ci, si) (combine (fl_crossings fb) (fl_sizes fb)) ->
-               si = list_sum (map (fun ls => combo_weight fb (combine ci ls)) (allowed_combos fb ci)) /\ 0 < si;
+               si = list_sum (map (fun ls => combo_weight fb (combine ci ls)) (allowed_combos2 fb ci)) /\ 0 < si;
   f0_spos : 0 < f0_s;
   f0_nodup : NoDup c;
   f0_range : forall f, In f c -> f < n;
@@ -49,7 +49,9 @@ Record f0_facts : Prop := {
   f0_excluded_derived : fl_excluded_derived fb = [];
   f0_cact : forall ci f, In ci (fl_crossings fb) -> In f ci -> In f (fl_act fb);
   f0_act : fl_act fb = filter (isact fb) (seq 0 n);
-  f0_basic : forall f fd, In f (fl_act fb) -> factor_at fb f = Some fd -> ff_window fd = None /\ ff_complex fd = false;
+  f0_actfd : forall f fd, In f (fl_act fb) -> factor_at fb f = Some fd ->
+             ff_complex fd = false /\ (ff_window fd = None \/ crossed_derived_fd fb f fd = true);
+  f0_derived_single : has_derived fb = true -> length (fl_crossings fb) = 1 /\ sources_ok fb = true;
   f0_implied : forall f fd, ~ In f (fl_act fb) -> factor_at fb f = Some fd -> implied_fd fb f fd = true;
   f0_constraints : forall k, In k (fl_constraints fb) -> constraint_f2 fb k = true;
   f0_nonempty : forall f, In f (fl_act fb) -> 0 < length (f0_L f);
@@ -62,6 +64,7 @@ Proof. unfold isact. apply memb_In. Qed.
 Lemma f0_unpack : f0_facts.
 Proof.
   pose proof HF as H0. unfold frag2 in H0.
+  apply andb_prop in H0. destruct H0 as [H0 Hder].
   apply andb_prop in H0. destruct H0 as [H0 HTpos].
   apply andb_prop in H0. destruct H0 as [H0 Hne].
   apply andb_prop in H0. destruct H0 as [H0 Hfac].
@@ -91,13 +94,13 @@ Proof.
     apply andb_prop in Hplain. destruct Hplain as [H1 H2]. split; [apply nodupb_NoDup; exact H1|].
     intros f Hf. rewrite forallb_forall in H2. apply isact_In. apply H2. exact Hf. }
   assert (Hsz' : forall ci si, In (ci, si) (combine (fl_crossings fb) (fl_sizes fb)) ->
-               si = list_sum (map (fun ls => combo_weight fb (combine ci ls)) (allowed_combos fb ci)) /\ 0 < si).
+               si = list_sum (map (fun ls => combo_weight fb (combine ci ls)) (allowed_combos2 fb ci)) /\ 0 < si).
   { intros ci si Hin. rewrite forallb_forall in Hszok. specialize (Hszok _ Hin). unfold crossing_size_ok in Hszok.
     cbn [fst snd] in Hszok. apply andb_prop in Hszok. destruct Hszok as [H1 H2]. apply Nat.eqb_eq in H1. apply Nat.ltb_lt in H2. auto. }
   assert (Hwp : forall x, In x (fl_weights fb) -> 0 < x).
   { intros x Hx. rewrite forallb_forall in Hwpos. apply Nat.ltb_lt. apply Hwpos. exact Hx. }
   assert (Hfd : forall f fd, factor_at fb f = Some fd ->
-            if isact fb f then basic_fd fd = true else implied_fd fb f fd = true).
+            if isact fb f then basic_fd fd || crossed_derived_fd fb f fd = true else implied_fd fb f fd = true).
   { intros f fd Hf. unfold factors_ok in Hfac. rewrite forallb_forall in Hfac. unfold factor_at in Hf.
     assert (Hlt : f < n) by (apply nth_error_Some; congruence).
     specialize (Hfac (f, fd)). cbn [fst snd] in Hfac.
@@ -122,8 +125,13 @@ Proof.
   - intros f Hf. apply Hactlt. apply (Hplain' c0); [left; reflexivity | exact Hf].
   - apply pairs_eqb_eq. exact Hex1.
   - intros ci f Hci Hf. apply (Hplain' ci Hci). exact Hf.
-  - intros f fd Hf Hfa. specialize (Hfd f fd Hfa). rewrite (proj2 (isact_In f) Hf) in Hfd. unfold basic_fd in Hfd.
-    destruct (ff_window fd); [discriminate|]. apply negb_true_iff in Hfd. auto.
+  - intros f fd Hf Hfa. specialize (Hfd f fd Hfa). rewrite (proj2 (isact_In f) Hf) in Hfd.
+    apply orb_prop in Hfd. destruct Hfd as [Hb | Hd].
+    + unfold basic_fd in Hb. destruct (ff_window fd); [discriminate|]. apply negb_true_iff in Hb. auto.
+    + split; [|right; exact Hd]. unfold crossed_derived_fd in Hd. destruct (ff_window fd); [|discriminate].
+      repeat (apply andb_prop in Hd; destruct Hd as [Hd _]). apply negb_true_iff in Hd. exact Hd.
+  - intros Hhd. rewrite Hhd in Hder. cbn [negb orb] in Hder. apply andb_prop in Hder. destruct Hder as [H1 H2].
+    apply Nat.eqb_eq in H1. split; [exact H1 | exact H2].
   - intros f fd Hf Hfa. specialize (Hfd f fd Hfa). destruct (isact fb f) eqn:E; [apply isact_In in E; contradiction | exact Hfd].
   - intros k Hk0. rewrite forallb_forall in Hcons. apply Hcons. exact Hk0.
   - intros f Hf. unfold act_levels_nonempty in Hne. rewrite forallb_forall in Hne.
@@ -150,23 +158,33 @@ Qed.
 Lemma f0_C_pos : 0 < f0_C.
 Proof. unfold f0_C. pose proof (f0_spos f0_unpack). pose proof (f0_wpos f0_unpack). nia. Qed.
 
-Lemma f0_window_none f : In f (fl_act fb) -> window_of fb f = None.
-Proof.
-  intros Hf. unfold window_of. destruct (factor_at fb f) as [fd|] eqn:E; [|reflexivity].
-  apply (f0_basic f0_unpack f fd Hf E).
-Qed.
-
-Lemma f0_not_derived f : In f (fl_act fb) -> is_derived fb f = false.
-Proof.
-  intros Hf. unfold is_derived. destruct (factor_at fb f) as [fd|] eqn:E; [|reflexivity].
-  destruct (f0_basic f0_unpack f fd Hf E) as [E1 _]. rewrite E1. reflexivity.
-Qed.
-
 Lemma f0_not_complex f : In f (fl_act fb) -> is_complex fb f = false.
 Proof.
   intros Hf. unfold is_complex. destruct (factor_at fb f) as [fd|] eqn:E; [|reflexivity].
-  apply (f0_basic f0_unpack f fd Hf E).
+  apply (f0_actfd f0_unpack f fd Hf E).
 Qed.
+
+(** a factor of [act_design] is plain, or a within-trial derived factor of the sampled crossing reading plain factors *)
+Lemma f0_act_kind f : In f (fl_act fb) ->
+  is_derived fb f = false \/
+  (In f c /\ exists fd w, factor_at fb f = Some fd /\ ff_window fd = Some w /\ win_width w = 1 /\ win_stride w = 1 /\
+     win_start w = 0 /\ forall d, In d (win_deps w) -> In d (fl_act fb) /\ is_derived fb d = false).
+Proof.
+  intros Hf. unfold is_derived. destruct (factor_at fb f) as [fd|] eqn:E; [|left; reflexivity].
+  destruct (f0_actfd f0_unpack f fd Hf E) as [_ [Hw | Hd]]; [left; rewrite Hw; reflexivity|].
+  right. unfold crossed_derived_fd in Hd. destruct (ff_window fd) as [w0|] eqn:Ew; [|discriminate].
+  apply andb_prop in Hd. destruct Hd as [Hd Hdeps]. apply andb_prop in Hd. destruct Hd as [Hd Hin].
+  apply andb_prop in Hd. destruct Hd as [Hd Hst]. apply andb_prop in Hd. destruct Hd as [Hd Hsd].
+  apply andb_prop in Hd. destruct Hd as [_ Hwd].
+  apply Nat.eqb_eq in Hst. apply Nat.eqb_eq in Hsd. apply Nat.eqb_eq in Hwd. apply memb_In in Hin.
+  split; [exact Hin|]. exists fd, w0. repeat split; try assumption; try reflexivity.
+  - rewrite forallb_forall in Hdeps. specialize (Hdeps d H). apply andb_prop in Hdeps. apply isact_In. apply Hdeps.
+  - rewrite forallb_forall in Hdeps. specialize (Hdeps d H). apply andb_prop in Hdeps. destruct Hdeps as [_ Hb].
+    unfold is_basic_f, basic_fd in Hb. destruct (factor_at fb d) as [dd|]; [|reflexivity]. destruct (ff_window dd); [discriminate | reflexivity].
+Qed.
+
+Lemma f0_uncrossed_not_derived f : In f (fl_act fb) -> ~ In f c -> is_derived fb f = false.
+Proof. intros Hf Hn. destruct (f0_act_kind f Hf) as [H | [H _]]; [exact H | contradiction]. Qed.
 
 (** a combination is excluded iff it contains a level named by an [Exclude] constraint *)
 Lemma f0_excluded_spec di : is_excluded_combination fb di = true <->
@@ -182,36 +200,42 @@ Proof.
     + cbn [fst snd]. rewrite Hl. apply Nat.eqb_refl.
 Qed.
 
-Lemma f0_inconsistent_eq di : (forall p, In p di -> In (fst p) (fl_act fb)) ->
+(** without a derived factor in it, a combination is consistent *)
+Lemma f0_inconsistent_eq di : (forall p, In p di -> is_derived fb (fst p) = false) ->
   is_excluded_or_inconsistent_combination fb di = is_excluded_combination fb di.
 Proof.
-  intros Hact. unfold is_excluded_or_inconsistent_combination. destruct (is_excluded_combination fb di); [reflexivity|].
+  intros Hnd. unfold is_excluded_or_inconsistent_combination. destruct (is_excluded_combination fb di); [reflexivity|].
   apply not_true_is_false. intros H. apply existsb_exists in H. destruct H as [f [Hf H]].
-  rewrite f0_not_derived in H by (apply Hact; exact Hf). discriminate.
+  rewrite (Hnd f Hf) in H. discriminate.
 Qed.
+
+Lemma f0_consistent_not_excluded di : is_excluded_or_inconsistent_combination fb di = false -> is_excluded_combination fb di = false.
+Proof. unfold is_excluded_or_inconsistent_combination. destruct (is_excluded_combination fb di); [discriminate | reflexivity]. Qed.
 
 Definition f0_instances : list asg := map (fun ls => combine c ls) f0_cprod.
 
 Lemma f0_crossing_instances : crossing_instances fb c = f0_instances.
 Proof.
-  unfold crossing_instances, f0_instances, f0_cprod, allowed_combos, instances_of.
-  rewrite filter_map_comm. f_equal. apply filter_ext. intros ls. rewrite f0_inconsistent_eq; [reflexivity|].
-  intros p Hp. apply f0_cact_main. eapply in_combine_fst. exact Hp.
+  unfold crossing_instances, f0_instances, f0_cprod, allowed_combos2, instances_of.
+  rewrite filter_map_comm. reflexivity.
 Qed.
 
 Lemma f0_instances_length : length f0_instances = f0_q.
 Proof. unfold f0_instances, f0_q. apply map_length. Qed.
 
 Lemma f0_cprod_in_prod ls : In ls f0_cprod -> In ls (product (map (all_levels fb) c)).
-Proof. unfold f0_cprod, allowed_combos. intros H. apply filter_In in H. apply H. Qed.
+Proof. unfold f0_cprod, allowed_combos2. intros H. apply filter_In in H. apply H. Qed.
 
-Lemma f0_cprod_spec ls : In ls f0_cprod <->
-  In ls (product (map (all_levels fb) c)) /\ is_excluded_combination fb (combine c ls) = false.
-Proof. unfold f0_cprod, allowed_combos. rewrite filter_In, negb_true_iff. reflexivity. Qed.
+Lemma f0_cprod_spec2 ls : In ls f0_cprod <->
+  In ls (product (map (all_levels fb) c)) /\ is_excluded_or_inconsistent_combination fb (combine c ls) = false.
+Proof. unfold f0_cprod, allowed_combos2. rewrite filter_In, negb_true_iff. reflexivity. Qed.
+
+Lemma f0_cprod_not_excluded ls : In ls f0_cprod -> is_excluded_combination fb (combine c ls) = false.
+Proof. intros H. apply f0_cprod_spec2 in H. apply f0_consistent_not_excluded. apply H. Qed.
 
 Lemma f0_cprod_nodup : NoDup f0_cprod.
 Proof.
-  unfold f0_cprod, allowed_combos. apply NoDup_filter. apply product_NoDup.
+  unfold f0_cprod, allowed_combos2. apply NoDup_filter. apply product_NoDup.
   intros l Hl. apply in_map_iff in Hl. destruct Hl as [f [E _]]. subst l. unfold all_levels. apply seq_NoDup.
 Qed.
 
@@ -264,6 +288,12 @@ Qed.
 Definition f0_unw : bool := p_unw f0_cws.
 Definition f0_N (first_n : nat) : Z := p_N f0_cws first_n.
 
+Lemma f0_N_unw first_n : f0_unw = true -> f0_N first_n = CombSpec.ffact (Z.of_nat f0_q) first_n.
+Proof. intros H. unfold f0_N, p_N. fold f0_unw. rewrite H, f0_cws_length. reflexivity. Qed.
+
+Lemma f0_N_w first_n : f0_unw = false -> f0_N first_n = cnt f0_cws (Z.of_nat first_n).
+Proof. intros H. unfold f0_N, p_N. fold f0_unw. rewrite H. reflexivity. Qed.
+
 Lemma f0_unw_C : f0_unw = true -> f0_C = f0_q.
 Proof. intros H. rewrite <- f0_p_C, <- f0_cws_length. apply unw_C. exact H. Qed.
 
@@ -283,11 +313,12 @@ Proof. unfold no_crossings. rewrite (f0_crossings f0_unpack). reflexivity. Qed.
 Lemma f0_cnc : crossed_noncomplex fb c = c.
 Proof. unfold crossed_noncomplex. apply filter_all. intros f Hf. rewrite f0_not_complex by (apply f0_cact_main; exact Hf). reflexivity. Qed.
 
-Lemma f0_cnd : crossed_noncomplex_derived fb c = [].
-Proof.
-  unfold crossed_noncomplex_derived. apply filter_none. intros f Hf. apply f0_not_derived. apply f0_cact_main.
-  rewrite f0_cnc in Hf. exact Hf.
-Qed.
+(** the derived factors of the crossing and the factors they read *)
+Definition f0_cd : list nat := filter (is_derived fb) (the_crossing fb).
+Definition f0_sf : list nat := source_factors fb (the_crossing fb).
+
+Lemma f0_cnd : crossed_noncomplex_derived fb c = f0_cd.
+Proof. unfold crossed_noncomplex_derived. rewrite f0_cnc. reflexivity. Qed.
 
 Lemma f0_crossed_complex : crossed_complex fb c = [].
 Proof.
@@ -295,43 +326,54 @@ Proof.
   intros f Hf. apply f0_not_complex. apply f0_cact_main. exact Hf.
 Qed.
 
-Lemma f0_source_factors : source_factors fb c = [].
-Proof. unfold source_factors. rewrite f0_cnd. reflexivity. Qed.
+(** the uncrossed factors are plain; those read by a crossed derived factor are the source factors *)
+Definition f0_ub : list nat := filter (fun f => negb (memb f (the_crossing fb))) (fl_act fb).
+Definition f0_ubs : list nat := filter (fun f => memb f f0_sf) f0_ub.
+Definition f0_ubi : list nat := filter (fun f => negb (memb f f0_sf)) f0_ub.
 
-(** the uncrossed factors: all independent *)
-Definition f0_ubi : list nat := filter (fun f => negb (memb f (the_crossing fb))) (fl_act fb).
+Lemma f0_ub_act f : In f f0_ub -> In f (fl_act fb) /\ ~ In f c.
+Proof. unfold f0_ub. intros H. apply filter_In in H. destruct H as [H1 H2]. apply negb_true_iff in H2. apply memb_false in H2. auto. Qed.
 
 Lemma f0_ubi_act f : In f f0_ubi -> In f (fl_act fb).
-Proof. unfold f0_ubi. intros H. apply filter_In in H. apply H. Qed.
+Proof. unfold f0_ubi. intros H. apply filter_In in H. apply f0_ub_act. apply H. Qed.
 
-Lemma f0_uncrossed_and_complex : uncrossed_and_complex fb c = f0_ubi.
-Proof. unfold uncrossed_and_complex, f0_ubi. rewrite f0_cnc. reflexivity. Qed.
+Lemma f0_ubs_act f : In f f0_ubs -> In f (fl_act fb).
+Proof. unfold f0_ubs. intros H. apply filter_In in H. apply f0_ub_act. apply H. Qed.
 
-Lemma f0_uncrossed_basic : uncrossed_basic fb c = f0_ubi.
+Lemma f0_uncrossed_and_complex : uncrossed_and_complex fb c = f0_ub.
+Proof. unfold uncrossed_and_complex, f0_ub. rewrite f0_cnc. reflexivity. Qed.
+
+Lemma f0_uncrossed_basic : uncrossed_basic fb c = f0_ub.
 Proof.
   unfold uncrossed_basic. rewrite f0_uncrossed_and_complex. apply filter_all.
-  intros f Hf. rewrite f0_not_derived by (apply f0_ubi_act; exact Hf). reflexivity.
+  intros f Hf. destruct (f0_ub_act f Hf) as [Ha Hn]. rewrite (f0_uncrossed_not_derived f Ha Hn). reflexivity.
 Qed.
 
-Lemma f0_ubs : uncrossed_basic_source fb c = [].
-Proof.
-  unfold uncrossed_basic_source. rewrite f0_source_factors. apply filter_none. intros f _. reflexivity.
-Qed.
+Lemma f0_ubs_eq : uncrossed_basic_source fb c = f0_ubs.
+Proof. unfold uncrossed_basic_source. rewrite f0_uncrossed_basic. reflexivity. Qed.
 
 Lemma f0_ubi_eq : uncrossed_basic_independent fb c = f0_ubi.
-Proof.
-  unfold uncrossed_basic_independent. rewrite f0_source_factors, f0_uncrossed_basic.
-  apply filter_all. intros f _. reflexivity.
-Qed.
+Proof. unfold uncrossed_basic_independent. rewrite f0_uncrossed_basic. reflexivity. Qed.
 
 Lemma f0_ucd : uncrossed_derived_and_complex_derived fb c = [].
 Proof.
-  unfold uncrossed_derived_and_complex_derived. apply filter_none. intros f Hf. apply f0_not_derived.
-  rewrite f0_uncrossed_and_complex in Hf. apply f0_ubi_act. exact Hf.
+  unfold uncrossed_derived_and_complex_derived. apply filter_none. intros f Hf.
+  rewrite f0_uncrossed_and_complex in Hf. destruct (f0_ub_act f Hf) as [Ha Hn]. apply (f0_uncrossed_not_derived f Ha Hn).
 Qed.
 
-Lemma f0_derived_factors : derived_factors fb = [].
-Proof. unfold derived_factors. apply filter_none. intros f Hf. apply f0_not_derived. exact Hf. Qed.
+(** without a derived factor there is no source factor *)
+Lemma f0_no_derived_sf : has_derived fb = false -> f0_cd = [] /\ f0_sf = [] /\ f0_ubs = [] /\ f0_ubi = f0_ub.
+Proof.
+  intros H. unfold has_derived in H.
+  assert (Hcd : f0_cd = []).
+  { unfold f0_cd. apply filter_none. intros f Hf. destruct (is_derived fb f) eqn:E; [|reflexivity].
+    exfalso. assert (existsb (is_derived fb) (fl_act fb) = true) by (apply existsb_exists; exists f; split; [apply f0_cact_main; exact Hf | exact E]).
+    congruence. }
+  assert (Hsf : f0_sf = []) by (unfold f0_sf, source_factors; rewrite f0_cnd, Hcd; reflexivity).
+  split; [exact Hcd|]. split; [exact Hsf|]. unfold f0_ubs, f0_ubi. rewrite Hsf. split.
+  - apply filter_none. intros f _. reflexivity.
+  - apply filter_all. intros f _. reflexivity.
+Qed.
 
 Lemma f0_block_weight_of ci : In ci (fl_crossings fb) -> block_crossing_weight fb ci = ROk (Z.of_nat (cw_of fb ci)).
 Proof.
@@ -367,11 +409,14 @@ Proof. apply f0_block_preamble_at. rewrite (f0_crossings f0_unpack). cbn. lia. Q
 
 Definition f0_moc : moc := if f0_unw then Uniform 1 else Counters f0_cws.
 
+(** the source combinations: all level combinations of the source factors *)
+Definition f0_srcs : list asg := instances_of fb f0_ubs.
+
 Definition f0_base : enum_base :=
   {| eb_main := 0; eb_mf := c; eb_cnc := c; eb_instances := f0_instances;
      eb_cweights := f0_cws; eb_unweighted := f0_unw;
-     eb_sources := [[]]; eb_src_factors := []; eb_m := 1%Z; eb_csize := Z.of_nat f0_C;
-     eb_moc := f0_moc; eb_sorted_derived := []; eb_sorted_ucd := []; eb_has_cc := false;
+     eb_sources := f0_srcs; eb_src_factors := f0_ubs; eb_m := 1%Z; eb_csize := Z.of_nat f0_C;
+     eb_moc := f0_moc; eb_sorted_derived := stable_sort (fdepth fb) (derived_factors fb); eb_sorted_ucd := []; eb_has_cc := false;
      eb_crossing_sizes := map Z.of_nat (fl_sizes fb);
      eb_preamble_sizes := map (fun _ => 0%Z) (seq 0 (length (fl_crossings fb)));
      eb_crossing_weights := map (fun ci => Z.of_nat (cw_of fb ci)) (fl_crossings fb);
@@ -384,7 +429,7 @@ Proof.
   rewrite f0_no_crossings. rewrite f0_block_weight. cbn [rbind].
   fold f0_cws. change (forallb (Z.eqb 1) f0_cws) with f0_unw.
   rewrite fold_add_zsum, f0_cws_sum.
-  rewrite f0_ubs. rewrite f0_crossed_complex. cbn [count_complex_crossing_instances].
+  rewrite f0_ubs_eq. rewrite f0_crossed_complex. cbn [count_complex_crossing_instances].
   rewrite (rmap_ok_map _ (fun _ => 0%Z) (seq 0 (length (fl_crossings fb))))
     by (intros i Hi; apply in_seq in Hi; apply f0_block_preamble_at; lia).
   cbn [rbind].
@@ -396,26 +441,317 @@ Proof.
     by (symmetry; apply Z.eqb_eq; unfold f0_C; lia).
   cbn [rbind].
   rewrite (f0_crossings f0_unpack) at 1. cbn [length seq map nth_error of_opt rbind].
-  rewrite f0_derived_factors, f0_ucd. cbn [stable_sort fold_right].
+  rewrite f0_ucd. cbn [stable_sort fold_right].
   assert (Hmap : map (fun x : Z => (x * 1)%Z) f0_cws = f0_cws).
   { rewrite <- (map_id f0_cws) at 2. apply map_ext. intros x. lia. }
-  rewrite Hmap. unfold f0_base, f0_moc. f_equal.
+  rewrite Hmap. unfold f0_base, f0_moc, f0_srcs. f_equal.
   rewrite (f0_crossings f0_unpack), (f0_sizes f0_unpack). cbn [length seq map].
   f_equal; try reflexivity; try lia.
 Qed.
 
-(** ** solution counting *)
-Lemma f0_valid_sources : valid_sources fb f0_base = ROk (map (fun _ => [0]) f0_instances).
+Lemma f0_plain : plain f0_base = f0_unw.
+Proof. reflexivity. Qed.
+
+Lemma f0_qz : q_instances f0_base = Z.of_nat f0_q.
+Proof. unfold q_instances. cbn [eb_instances f0_base]. rewrite f0_instances_length. reflexivity. Qed.
+
+Lemma f0_params : StackProofs.params_ok (q_instances f0_base) (eb_moc f0_base) /\
+  (plain f0_base = true -> eb_moc f0_base = Uniform 1).
+Proof. destruct (enum_base_params fb f0_base f0_enum_base) as (H1 & H2 & _). split; assumption. Qed.
+
+Lemma f0_cs_of : StackProofs.cs_of (Z.of_nat f0_q) f0_moc = f0_cws.
 Proof.
-  unfold valid_sources. cbn [eb_instances f0_base]. apply rmap_ok_map. intros ci _.
-  unfold valid_sources_for. cbn [eb_sources f0_base]. unfold source_allowed.
-  cbn [eb_mf f0_base]. rewrite f0_cnd. reflexivity.
+  unfold f0_moc. destruct f0_unw eqn:Hu; [|reflexivity]. cbn [StackProofs.cs_of]. rewrite Nat2Z.id.
+  rewrite <- f0_cws_length. symmetry. apply unw_ones. exact Hu.
 Qed.
 
+Lemma f0_Ncount (first_n : nat) : Ncount f0_base (Z.of_nat first_n) = f0_N first_n.
+Proof.
+  unfold Ncount, f0_N, p_N. rewrite f0_plain. fold f0_unw. rewrite f0_qz, Nat2Z.id, f0_cws_length.
+  cbn [eb_moc f0_base]. rewrite f0_cs_of. reflexivity.
+Qed.
+
+(** ** the source combinations an instance allows *)
+Lemma dedup_append_In acc xs x : In x (dedup_append acc xs) <-> In x acc \/ In x xs.
+Proof.
+  revert acc. induction xs as [|y t IH]; intros acc; cbn [dedup_append]; [cbn; tauto|].
+  rewrite IH. destruct (memb y acc) eqn:E.
+  - apply memb_In in E. cbn [In]. split; [tauto|]. intros [H | [H | H]]; [tauto | subst; tauto | tauto].
+  - rewrite in_app_iff. cbn [In]. tauto.
+Qed.
+
+Lemma f0_sf_In df w0 d : In df f0_cd -> window_of fb df = Some w0 -> In d (win_deps w0) -> In d f0_sf.
+Proof.
+  intros Hdf Hw Hd. unfold f0_sf, source_factors. rewrite f0_cnd.
+  assert (G : forall l acc, (In d acc \/ In df l) ->
+              In d (fold_left (fun acc df0 => match window_of fb df0 with Some w1 => dedup_append acc (win_deps w1) | None => acc end) l acc)).
+  { induction l as [|x t IH]; intros acc H; cbn [fold_left]; [destruct H as [H | []]; exact H|].
+    apply IH. destruct H as [H | [H | H]].
+    - left. destruct (window_of fb x); [apply dedup_append_In; left; exact H | exact H].
+    - subst x. left. rewrite Hw. apply dedup_append_In. right. exact Hd.
+    - right. exact H. }
+  apply G. right. exact Hdf.
+Qed.
+
+Definition src_spec (ci sc : asg) : Prop :=
+  forall df l w0, In df f0_cd -> alookup (ci ++ sc) df = Some l -> window_of fb df = Some w0 ->
+    predicate fb df l (map (fun d => [alookup (ci ++ sc) d]) (win_deps w0)) = true.
+
+Definition src_ok (ci sc : asg) : bool :=
+  match source_allowed fb f0_base ci sc with ROk b => b | RErr _ => false end.
+
+(** the lookups the filter performs succeed on an instance joined with a source combination *)
+Definition merged_ok (ci sc : asg) : Prop :=
+  forall df, In df f0_cd -> (exists l, alookup (ci ++ sc) df = Some l) /\
+    exists w0, window_of fb df = Some w0 /\ forall d, In d (win_deps w0) -> exists a, alookup (ci ++ sc) d = Some a.
+
+Lemma source_allowed_spec ci sc : merged_ok ci sc ->
+  source_allowed fb f0_base ci sc = ROk (src_ok ci sc) /\ (src_ok ci sc = true <-> src_spec ci sc).
+Proof.
+  intros Hm. unfold src_ok, source_allowed, src_spec. cbn [eb_mf f0_base]. rewrite f0_cnd.
+  assert (G : forall dfs, (forall df, In df dfs -> In df f0_cd) ->
+              exists b, (fix go (dfs : list nat) (removed : bool) : rres bool :=
+                           match dfs with
+                           | [] => ROk (negb removed)
+                           | df :: t =>
+                             if is_complex fb df then go t removed
+                             else
+                               l <-- of_opt KeyError (alookup (ci ++ sc) df) ;;;
+                               w1 <-- of_opt AttributeError (window_of fb df) ;;;
+                               args <-- rmap (fun f => of_opt KeyError (alookup (ci ++ sc) f)) (win_deps w1) ;;;
+                               if predicate fb df l (map (fun a => [Some a]) args) then go t removed else ROk false
+                           end) dfs false = ROk b /\
+                        (b = true <-> forall df l w0, In df dfs -> alookup (ci ++ sc) df = Some l -> window_of fb df = Some w0 ->
+                                         predicate fb df l (map (fun d => [alookup (ci ++ sc) d]) (win_deps w0)) = true)).
+  { induction dfs as [|df t IH]; intros Hsub.
+    - exists true. split; [reflexivity|]. split; [intros _ df l w0 []|reflexivity].
+    - destruct (IH (fun x Hx => Hsub x (or_intror Hx))) as (b & Hb & Hiff).
+      destruct (Hm df (Hsub df (or_introl eq_refl))) as [[l Hl] (w0 & Hw & Hdeps)].
+      assert (Hnc : is_complex fb df = false).
+      { apply f0_not_complex. apply f0_cact_main. assert (Hin := Hsub df (or_introl eq_refl)). unfold f0_cd in Hin.
+        apply filter_In in Hin. apply Hin. }
+      rewrite Hnc, Hl, Hw. cbn [of_opt rbind].
+      assert (Hargs : exists args, rmap (fun f => of_opt KeyError (alookup (ci ++ sc) f)) (win_deps w0) = ROk args /\
+                                   map (fun a => [Some a]) args = map (fun d => [alookup (ci ++ sc) d]) (win_deps w0)).
+      { clear - Hdeps. induction (win_deps w0) as [|d ds IHd]; [exists []; split; reflexivity|].
+        destruct (Hdeps d (or_introl eq_refl)) as [a Ha]. destruct (IHd (fun x Hx => Hdeps x (or_intror Hx))) as (args & Hr & Em).
+        exists (a :: args). cbn [rmap map]. rewrite Ha. cbn [of_opt rbind]. rewrite Hr. cbn [rbind]. split; [reflexivity|].
+        rewrite Em. reflexivity. }
+      destruct Hargs as (args & Hr & Em). rewrite Hr. cbn [rbind]. rewrite Em.
+      destruct (predicate fb df l (map (fun d => [alookup (ci ++ sc) d]) (win_deps w0))) eqn:Ep.
+      + exists b. split; [exact Hb|]. rewrite Hiff. split.
+        * intros H df' l' w' [E | Hin] Hl' Hw'; [subst df'; rewrite Hl in Hl'; rewrite Hw in Hw'; inversion Hl'; inversion Hw'; subst; exact Ep|].
+          apply (H df' l' w' Hin Hl' Hw').
+        * intros H df' l' w' Hin. apply H. right. exact Hin.
+      + exists false. split; [reflexivity|]. split; [discriminate|]. intros H.
+        rewrite (H df l w0 (or_introl eq_refl) Hl Hw) in Ep. discriminate. }
+  destruct (G f0_cd (fun df H => H)) as (b & Hb & Hiff). rewrite Hb. split; [reflexivity | exact Hiff].
+Qed.
+
+Lemma f0_instance_shape ci : In ci f0_instances -> exists ls, In ls f0_cprod /\ ci = combine c ls /\ length ls = length c.
+Proof.
+  intros H. unfold f0_instances in H. apply in_map_iff in H. destruct H as [ls [E Hls]]. exists ls. split; [exact Hls|].
+  split; [symmetry; exact E|]. rewrite (product_length_elem _ _ (f0_cprod_in_prod ls Hls)). apply map_length.
+Qed.
+
+Lemma f0_src_shape sc : In sc f0_srcs -> exists ls, sc = combine f0_ubs ls /\ length ls = length f0_ubs /\
+  Forall2 (fun f l => l < nlevels fb f) f0_ubs ls.
+Proof.
+  intros H. unfold f0_srcs, instances_of in H. apply in_map_iff in H. destruct H as [ls [E Hls]]. exists ls.
+  split; [symmetry; exact E|]. pose proof (product_length_elem _ _ Hls) as Hl. rewrite map_length in Hl. split; [exact Hl|].
+  apply product_In in Hls. clear - Hls. remember (map (all_levels fb) f0_ubs) as L eqn:EL. revert EL. generalize f0_ubs as us.
+  induction Hls as [|l x L' xs Hx Hrest IH]; intros us EL; destruct us as [|u us']; try discriminate; [constructor|].
+  cbn [map] in EL. inversion EL; subst. constructor; [unfold all_levels in Hx; apply in_seq in Hx; lia | apply IH; reflexivity].
+Qed.
+
+Lemma alookup_combine_in fs ls f : NoDup fs -> length ls = length fs -> In f fs -> exists a, alookup (combine fs ls) f = Some a.
+Proof.
+  intros Hnd Hl Hf. apply In_nth_error in Hf. destruct Hf as [i Hi]. rewrite (alookup_combine fs ls i f Hnd Hl Hi).
+  assert (i < length ls) by (rewrite Hl; apply nth_error_Some; congruence).
+  destruct (nth_error ls i) eqn:E; [eexists; reflexivity | apply nth_error_None in E; lia].
+Qed.
+
+Lemma f0_ubs_nodup : NoDup f0_ubs.
+Proof. unfold f0_ubs, f0_ub. apply NoDup_filter. apply NoDup_filter. apply act_nodup. Qed.
+
+Lemma f0_merged_ok ci sc : In ci f0_instances -> In sc f0_srcs -> merged_ok ci sc.
+Proof.
+  intros Hci Hsc df Hdf. destruct (f0_instance_shape ci Hci) as (ls & _ & -> & Hl).
+  destruct (f0_src_shape sc Hsc) as (ls' & -> & Hl' & _).
+  assert (Hdfc : In df c) by (unfold f0_cd in Hdf; apply filter_In in Hdf; apply Hdf).
+  assert (Hder : is_derived fb df = true) by (unfold f0_cd in Hdf; apply filter_In in Hdf; apply Hdf).
+  assert (Hlook : forall d, In d c \/ In d f0_ubs -> exists a, alookup (combine c ls ++ combine f0_ubs ls') d = Some a).
+  { intros d [Hd | Hd]; rewrite alookup_app.
+    - destruct (alookup_combine_in c ls d (f0_nodup f0_unpack) Hl Hd) as [a Ha]. rewrite Ha. eexists. reflexivity.
+    - destruct (alookup (combine c ls) d) as [a|]; [eexists; reflexivity|].
+      apply (alookup_combine_in f0_ubs ls' d f0_ubs_nodup Hl' Hd). }
+  split; [apply Hlook; left; exact Hdfc|].
+  destruct (f0_act_kind df (f0_cact_main df Hdfc)) as [Hnd | [_ (fd & w0 & Hfa & Hw & _ & _ & _ & Hdeps)]]; [congruence|].
+  exists w0. split; [unfold window_of; rewrite Hfa; exact Hw|]. intros d Hd. apply Hlook.
+  destruct (Hdeps d Hd) as [Hda Hdb]. destruct (in_dec Nat.eq_dec d c) as [Hc | Hnc]; [left; exact Hc|]. right.
+  unfold f0_ubs. apply filter_In. split.
+  - unfold f0_ub. apply filter_In. split; [exact Hda|]. apply negb_true_iff. apply memb_false. exact Hnc.
+  - apply memb_In. apply (f0_sf_In df w0 d Hdf); [unfold window_of; rewrite Hfa; exact Hw | exact Hd].
+Qed.
+
+Definition f0_valid (ci : asg) : list nat :=
+  filter (fun j => src_ok ci (nth j f0_srcs [])) (seq 0 (length f0_srcs)).
+Definition f0_vs : list (list nat) := map f0_valid f0_instances.
+
+Lemma f0_valid_sources : valid_sources fb f0_base = ROk f0_vs.
+Proof.
+  unfold valid_sources, f0_vs. cbn [eb_instances f0_base]. apply rmap_ok_map. intros ci Hci.
+  unfold valid_sources_for, f0_valid. cbn [eb_sources f0_base].
+  assert (G : forall scs i0, (forall sc, In sc scs -> In sc f0_srcs) ->
+              (fix go (scs : list asg) (i : nat) : rres (list nat) :=
+                 match scs with
+                 | [] => ROk []
+                 | sc :: t => ok <-- source_allowed fb f0_base ci sc ;;; r <-- go t (S i) ;;; ROk (if ok then i :: r else r)
+                 end) scs i0 =
+              ROk (map (Nat.add i0) (filter (fun j => src_ok ci (nth j scs [])) (seq 0 (length scs))))).
+  { induction scs as [|sc t IH]; intros i0 Hsub; [reflexivity|].
+    destruct (source_allowed_spec ci sc (f0_merged_ok ci sc Hci (Hsub sc (or_introl eq_refl)))) as [Hs _]. rewrite Hs. cbn [rbind].
+    rewrite (IH (S i0) (fun x Hx => Hsub x (or_intror Hx))). cbn [rbind length seq].
+    rewrite <- seq_shift. cbn [filter nth]. rewrite filter_map_comm. cbn [nth].
+    destruct (src_ok ci sc); cbn [map]; rewrite !map_map; f_equal; try (f_equal; [lia|]); apply map_ext; intros j; lia. }
+  rewrite (G f0_srcs 0 (fun sc H => H)). f_equal. rewrite <- (map_id (filter _ _)) at 2. apply map_ext. intros j. reflexivity.
+Qed.
+
+Lemma f0_vs_length : length f0_vs = f0_q.
+Proof. unfold f0_vs. rewrite map_length. apply f0_instances_length. Qed.
+
+(** every instance allows some source combination *)
+Lemma f0_vs_nonempty l : In l f0_vs -> 0 < length l.
+Proof.
+  intros Hl. destruct (has_derived fb) eqn:Hd.
+  - destruct (f0_derived_single f0_unpack Hd) as [_ Hs]. unfold sources_ok in Hs. rewrite f0_enum_base, f0_valid_sources in Hs.
+    rewrite forallb_forall in Hs. apply Nat.ltb_lt. apply Hs. exact Hl.
+  - (* no derived factor: the empty source combination is allowed *)
+    destruct (f0_no_derived_sf Hd) as (Hcd & _ & Hubs & _).
+    unfold f0_vs in Hl. apply in_map_iff in Hl. destruct Hl as [ci [E Hci]]. subst l.
+    unfold f0_valid, f0_srcs. rewrite Hubs. change (instances_of fb []) with [([] : asg)]. cbn [length seq filter nth].
+    assert (Hok : src_ok ci [] = true).
+    { unfold src_ok, source_allowed. cbn [eb_mf f0_base]. rewrite f0_cnd, Hcd. reflexivity. }
+    rewrite Hok. cbn. lia.
+Qed.
+
+Definition f0_combs : list Z := map (fun l : list nat => Z.of_nat (length l)) f0_vs.
 Definition f0_inds (first_n : Z) : list Z := map (fun f => (Z.of_nat (length (f0_L f)) ^ first_n)%Z) f0_ubi.
 Definition f0_shape (first_n : nat) : shape :=
-  {| sh_cross := f0_N first_n; sh_combs := map (fun _ => 1%Z) f0_instances; sh_inds := f0_inds (Z.of_nat first_n) |}.
+  {| sh_cross := f0_N first_n; sh_combs := f0_combs; sh_inds := f0_inds (Z.of_nat first_n) |}.
 
+(** a memo table the counter / unranker may use *)
+Definition f0_memo_ok (memo : memo_t) : Prop := StackProofs.memo_valid (Z.of_nat f0_q) f0_moc memo.
+
+Lemma f0_memo_nil : f0_memo_ok [].
+Proof. apply StackProofs.memo_valid_nil. Qed.
+
+Lemma f0_params_ok : StackProofs.params_ok (Z.of_nat f0_q) f0_moc.
+Proof. destruct f0_params as [H _]. rewrite f0_qz in H. exact H. Qed.
+
+Definition f0_leftover : nat := fl_trials fb mod f0_C.
+Definition f0_rounds : nat := fl_trials fb / f0_C.
+
+Definition f0_enum (m lm : memo_t) (cn lcn : Z) : enumerator :=
+  {| en_base := f0_base; en_valid := f0_vs;
+     en_ind_levels := map (fun f => (f, f0_L f)) f0_ubi;
+     en_count := cn; en_shape := f0_shape f0_C; en_memo := m;
+     en_leftover := Z.of_nat f0_leftover;
+     en_lcount := lcn;
+     en_lshape := if f0_leftover =? 0 then {| sh_cross := 0; sh_combs := []; sh_inds := [] |} else f0_shape f0_leftover;
+     en_lmemo := lm;
+     en_basic_levels := []; en_pcount := 1%Z |}.
+
+Lemma f0_leftover_lt : f0_leftover < f0_C.
+Proof. unfold f0_leftover. apply Nat.mod_upper_bound. pose proof f0_C_pos. lia. Qed.
+
+Lemma f0_inds_pos first_n : (0 < prodZl (f0_inds (Z.of_nat first_n)))%Z.
+Proof.
+  unfold f0_inds. rewrite prodZl_fold_right.
+  assert (G : forall l, (forall f, In f l -> In f (fl_act fb)) ->
+              (0 < fold_right Z.mul 1 (map (fun f => Z.of_nat (length (f0_L f)) ^ Z.of_nat first_n) l))%Z).
+  { induction l as [|f t IH]; intros Hl; cbn [map fold_right]; [lia|].
+    pose proof (f0_nonempty f0_unpack f (Hl f (or_introl eq_refl))) as Hne.
+    pose proof (Z.pow_pos_nonneg (Z.of_nat (length (f0_L f))) (Z.of_nat first_n) ltac:(lia) ltac:(lia)).
+    pose proof (IH (fun x Hx => Hl x (or_intror Hx))). nia. }
+  apply G. intros f Hf. apply f0_ubi_act. exact Hf.
+Qed.
+
+(** one call of [__count_solutions] on the fragment: it returns, with the expected shape and a positive count *)
+Lemma f0_count_solutions (first_n : nat) : first_n <= f0_C -> (0 < f0_N first_n)%Z ->
+  exists cn memo', count_solutions fb f0_base (Z.of_nat first_n) [] f0_vs = ROk (cn, f0_shape first_n, memo') /\
+                   f0_memo_ok memo' /\ (0 < cn)%Z.
+Proof.
+  intros Hle HN. destruct f0_params as [Hp Hplain]. pose proof f0_q_pos as Hq.
+  assert (Hple : plain f0_base = true -> (Z.to_nat (Z.of_nat first_n) <= length (eb_instances f0_base))%nat).
+  { intros Hpl. rewrite f0_plain in Hpl. cbn [eb_instances f0_base]. rewrite f0_instances_length, Nat2Z.id.
+    rewrite <- (f0_unw_C Hpl). exact Hle. }
+  destruct (count_solutions_total f0_base Hp Hplain fb (Z.of_nat first_n) [] f0_vs ltac:(lia)
+              (StackProofs.memo_valid_nil _ _) Hple) as [[[cn sh] memo'] Hc].
+  { cbn [eb_instances f0_base]. rewrite f0_vs_length, f0_instances_length. reflexivity. }
+  { cbn [eb_instances f0_base]. rewrite f0_instances_length. exact Hq. }
+  destruct (count_solutions_spec f0_base Hp Hplain fb (Z.of_nat first_n) [] f0_vs cn sh memo' ltac:(lia)
+              (StackProofs.memo_valid_nil _ _) Hc) as (Hcross & Hcombs & Hval & _ & _ & Einds & count1 & Hok & Ecn).
+  assert (Esh : sh = f0_shape first_n).
+  { destruct sh as [a b d]. cbn [sh_cross sh_combs sh_inds] in *. unfold f0_shape. f_equal.
+    - rewrite Hcross. apply f0_Ncount.
+    - exact Hcombs.
+    - rewrite Einds. cbn [eb_mf f0_base]. rewrite f0_ubi_eq. reflexivity. }
+  exists cn, memo'. rewrite <- Esh. split; [exact Hc|]. split.
+  - unfold f0_memo_ok. rewrite f0_qz in Hval. exact Hval.
+  - rewrite Ecn. apply Z.mul_pos_pos.
+    + apply (count1_pos f0_base Hp Hplain (Z.of_nat first_n) (map (fun l : list nat => Z.of_nat (length l)) f0_vs) count1 ltac:(lia)).
+      * rewrite map_length. cbn [eb_instances f0_base]. rewrite f0_vs_length, f0_instances_length. reflexivity.
+      * cbn [eb_instances f0_base]. rewrite f0_instances_length. exact Hq.
+      * intros x Hx. apply in_map_iff in Hx. destruct Hx as [l [E Hl]]. subst x. pose proof (f0_vs_nonempty l Hl). lia.
+      * rewrite f0_Ncount. exact HN.
+      * exact Hok.
+    + rewrite Esh. cbn [sh_inds f0_shape]. apply f0_inds_pos.
+Qed.
+
+Lemma f0_N_pos_full : (0 < f0_N f0_C)%Z.
+Proof. unfold f0_N. rewrite <- f0_p_C. apply p_N_pos. apply f0_cws_nonneg. Qed.
+
+(** the enumerator is always built (C13 totality): its fields in closed form, the two counts positive or not needed *)
+Lemma f0_make_enumerator_total : exists m lm cn lcn,
+  make_enumerator fb = ROk (f0_enum m lm cn lcn) /\ f0_memo_ok m /\ f0_memo_ok lm /\ (0 < cn)%Z.
+Proof.
+  pose proof f0_C_pos as HC. unfold make_enumerator. rewrite f0_enum_base. cbn [rbind].
+  rewrite f0_valid_sources. cbn [rbind]. cbn [eb_csize f0_base].
+  destruct (f0_count_solutions f0_C (le_n _) f0_N_pos_full) as (cn & m & E1 & Hm & Hcn).
+  rewrite E1. cbn [rbind].
+  replace (Z.of_nat f0_C =? 0)%Z with false by (symmetry; apply Z.eqb_neq; lia).
+  cbn [rbind eb_preamble f0_base]. unfold trials_Z. rewrite Z.sub_0_r.
+  assert (Hmod : (Z.of_nat (fl_trials fb) mod Z.of_nat f0_C)%Z = Z.of_nat f0_leftover).
+  { unfold f0_leftover. rewrite Nat2Z.inj_mod. reflexivity. }
+  rewrite Hmod. pose proof f0_leftover_lt as Hlo.
+  destruct (f0_leftover =? 0) eqn:E.
+  - apply Nat.eqb_eq in E. exists m, [], cn, 1%Z. rewrite E. cbn [Z.of_nat Z.eqb rbind]. cbn [eb_mf f0_base]. rewrite f0_ubi_eq.
+    split; [unfold f0_enum; rewrite E; reflexivity|]. split; [exact Hm|]. split; [apply f0_memo_nil | exact Hcn].
+  - apply Nat.eqb_neq in E.
+    replace (Z.of_nat f0_leftover =? 0)%Z with false by (symmetry; apply Z.eqb_neq; lia).
+    (* the leftover count: it returns; its value is not needed to be positive here *)
+    destruct f0_params as [Hp Hplain]. pose proof f0_q_pos as Hq.
+    assert (Hple : plain f0_base = true -> (Z.to_nat (Z.of_nat f0_leftover) <= length (eb_instances f0_base))%nat).
+    { intros Hpl. rewrite f0_plain in Hpl. cbn [eb_instances f0_base]. rewrite f0_instances_length, Nat2Z.id.
+      rewrite <- (f0_unw_C Hpl). lia. }
+    destruct (count_solutions_total f0_base Hp Hplain fb (Z.of_nat f0_leftover) [] f0_vs ltac:(lia)
+                (StackProofs.memo_valid_nil _ _) Hple) as [[[lcn lsh] lm] Hc2].
+    { cbn [eb_instances f0_base]. rewrite f0_vs_length, f0_instances_length. reflexivity. }
+    { cbn [eb_instances f0_base]. rewrite f0_instances_length. exact Hq. }
+    destruct (count_solutions_spec f0_base Hp Hplain fb (Z.of_nat f0_leftover) [] f0_vs lcn lsh lm ltac:(lia)
+                (StackProofs.memo_valid_nil _ _) Hc2) as (Hcross & Hcombs & Hval & _ & _ & Einds & _).
+    assert (Esh : lsh = f0_shape f0_leftover).
+    { destruct lsh as [a b d]. cbn [sh_cross sh_combs sh_inds] in *. unfold f0_shape. f_equal.
+      - rewrite Hcross. apply f0_Ncount.
+      - exact Hcombs.
+      - rewrite Einds. cbn [eb_mf f0_base]. rewrite f0_ubi_eq. reflexivity. }
+    rewrite Hc2. cbn [rbind eb_mf f0_base]. rewrite f0_ubi_eq. exists m, lm, cn, lcn.
+    split; [unfold f0_enum; replace (f0_leftover =? 0) with false by (symmetry; apply Nat.eqb_neq; exact E); rewrite Esh; reflexivity|].
+    split; [exact Hm|]. split; [unfold f0_memo_ok; rewrite f0_qz in Hval; exact Hval | exact Hcn].
+Qed.
+
+(** ** without weights and derived factors: the counts in closed form, the memo tables untouched *)
 Lemma f0_perms_div (first_n : nat) : first_n <= f0_q ->
   (fact_nat f0_q / fact_nat (f0_q - first_n))%Z = CombSpec.ffact (Z.of_nat f0_q) first_n.
 Proof.
@@ -423,44 +759,36 @@ Proof.
   rewrite <- E. apply Z.div_mul. pose proof (fact_nat_pos (f0_q - first_n)). lia.
 Qed.
 
-Lemma f0_N_unw first_n : f0_unw = true -> f0_N first_n = CombSpec.ffact (Z.of_nat f0_q) first_n.
-Proof. intros H. unfold f0_N, p_N. fold f0_unw. rewrite H, f0_cws_length. reflexivity. Qed.
-
-Lemma f0_N_w first_n : f0_unw = false -> f0_N first_n = cnt f0_cws (Z.of_nat first_n).
-Proof. intros H. unfold f0_N, p_N. fold f0_unw. rewrite H. reflexivity. Qed.
-
-(** a memo table the weighted counter may use *)
-Definition f0_memo_ok (memo : memo_t) : Prop :=
-  f0_unw = false -> StackProofs.memo_valid (Z.of_nat f0_q) (Counters f0_cws) memo.
-
-Lemma f0_memo_nil : f0_memo_ok [].
-Proof. intros _. apply StackProofs.memo_valid_nil. Qed.
-
-Lemma f0_params_ok : StackProofs.params_ok (Z.of_nat f0_q) (Counters f0_cws).
-Proof. split; cbn [StackProofs.cs_of]; [rewrite f0_cws_length; reflexivity | apply f0_cws_nonneg]. Qed.
-
-Lemma f0_combs_eq : map (fun l : list nat => Z.of_nat (length l)) (map (fun _ : asg => [0]) f0_instances)
-                    = map (fun _ => 1%Z) f0_instances.
-Proof. rewrite map_map. reflexivity. Qed.
-
-(** without weights: total, the memo table is not touched *)
-Lemma f0_count_solutions_unw (first_n : nat) memo : f0_unw = true -> first_n <= f0_C ->
-  count_solutions fb f0_base (Z.of_nat first_n) memo (map (fun _ => [0]) f0_instances) =
-  ROk ((f0_N first_n * prodZl (f0_inds (Z.of_nat first_n)))%Z, f0_shape first_n, memo).
+Lemma f0_vs_plain : has_derived fb = false -> f0_vs = map (fun _ => [0]) f0_instances.
 Proof.
-  intros Hu Hle. rewrite (f0_unw_C Hu) in Hle. pose proof f0_q_pos as Hq.
+  intros Hd. destruct (f0_no_derived_sf Hd) as (Hcd & _ & Hubs & _). unfold f0_vs. apply map_ext. intros ci.
+  unfold f0_valid, f0_srcs. rewrite Hubs. change (instances_of fb []) with [([] : asg)]. cbn [length seq filter nth].
+  assert (Hok : src_ok ci [] = true).
+  { unfold src_ok, source_allowed. cbn [eb_mf f0_base]. rewrite f0_cnd, Hcd. reflexivity. }
+  rewrite Hok. reflexivity.
+Qed.
+
+Definition f0_count (first_n : nat) : Z := (f0_N first_n * prodZl (f0_inds (Z.of_nat first_n)))%Z.
+
+Lemma f0_count_solutions_plain (first_n : nat) memo : f0_unw = true -> has_derived fb = false -> first_n <= f0_C ->
+  count_solutions fb f0_base (Z.of_nat first_n) memo f0_vs = ROk (f0_count first_n, f0_shape first_n, memo).
+Proof.
+  intros Hu Hd Hle. rewrite (f0_unw_C Hu) in Hle. pose proof f0_q_pos as Hq.
+  assert (Ecombs : f0_combs = map (fun _ => 1%Z) f0_instances).
+  { unfold f0_combs. rewrite (f0_vs_plain Hd), map_map. reflexivity. }
   unfold count_solutions, q_instances. cbn [eb_m eb_unweighted eb_instances f0_base].
   rewrite f0_instances_length. rewrite Hu. cbn [Z.eqb andb Pos.eqb].
   replace (Z.of_nat f0_q * 1)%Z with (Z.of_nat f0_q) by lia.
   unfold factorial. replace (Z.of_nat f0_q <? 0)%Z with false by (symmetry; apply Z.ltb_ge; lia).
   cbn [lift rbind]. rewrite Nat2Z.id.
-  rewrite f0_combs_eq. cbn [eb_mf f0_base]. rewrite f0_ubi_eq.
+  change (map (fun l : list nat => Z.of_nat (length l)) f0_vs) with f0_combs.
+  cbn [eb_mf f0_base]. rewrite f0_ubi_eq.
   change (map (fun f => (Z.of_nat (length (nonexcluded_levels fb f)) ^ Z.of_nat first_n)%Z) f0_ubi)
     with (f0_inds (Z.of_nat first_n)).
-  unfold f0_shape. rewrite (f0_N_unw first_n Hu).
+  unfold f0_count, f0_shape. rewrite (f0_N_unw first_n Hu).
   destruct (Z.of_nat first_n =? Z.of_nat f0_q)%Z eqn:E.
   - apply Z.eqb_eq in E. apply Nat2Z.inj in E. subst first_n. cbn [rbind andb].
-    rewrite prodZl_ones by (intros x Hx; apply in_map_iff in Hx; destruct Hx as [? [? _]]; congruence).
+    rewrite Ecombs. rewrite prodZl_ones by (intros x Hx; apply in_map_iff in Hx; destruct Hx as [? [? _]]; congruence).
     rewrite <- f0_perms_div by lia. rewrite Nat.sub_diag. cbn [fact_nat].
     rewrite Z.div_1_r, Z.mul_1_r. reflexivity.
   - apply Z.eqb_neq in E.
@@ -469,216 +797,37 @@ Proof.
     pose proof (fact_nat_pos (f0_q - first_n)) as Hpos.
     replace (fact_nat (f0_q - first_n) =? 0)%Z with false by (symmetry; apply Z.eqb_neq; lia).
     cbn [rbind andb]. rewrite f0_perms_div by lia.
-    unfold sum_combination_products. cbn [eb_moc f0_base]. unfold f0_moc. rewrite Hu. rewrite all_equal_ones. cbn [andb].
+    unfold sum_combination_products. cbn [eb_moc f0_base]. unfold f0_moc. rewrite Hu. rewrite Ecombs. rewrite all_equal_ones. cbn [andb].
     destruct f0_instances as [|i0 rest] eqn:Ei.
     { exfalso. pose proof f0_instances_length as Hl. rewrite Ei in Hl. cbn in Hl. lia. }
     cbn [map zindex Z.ltb Z.compare Z.to_nat nth_error of_opt rbind].
     rewrite Z.pow_1_l by lia. rewrite Z.mul_1_r. reflexivity.
 Qed.
 
-(** with weights: what a successful run of the memoised counter returns *)
-Lemma scp_loop_inv first_n : f0_unw = false -> forall cntn i memo s r,
-  StackProofs.memo_valid (Z.of_nat f0_q) (Counters f0_cws) memo ->
-  (0 <= i)%Z -> (i + Z.of_nat cntn <= cnt f0_cws (Z.of_nat first_n))%Z ->
-  scp_loop f0_base cntn i (Z.of_nat first_n) (map (fun _ => 1%Z) f0_instances) memo s = ROk r ->
-  fst r = (s + Z.of_nat cntn)%Z /\ StackProofs.memo_valid (Z.of_nat f0_q) (Counters f0_cws) (snd r).
+(** the enumerator of a design without weights and derived factors *)
+Definition f0_enum_plain : enumerator :=
+  f0_enum [] [] (f0_count f0_C) (if f0_leftover =? 0 then 1%Z else f0_count f0_leftover).
+
+Lemma f0_make_enumerator_plain : f0_unw = true -> has_derived fb = false -> make_enumerator fb = ROk f0_enum_plain.
 Proof.
-  intros Hu. induction cntn as [|k IH]; intros i memo s r Hval Hi Hb Hrun.
-  - cbn [scp_loop] in Hrun. inversion Hrun; subst r. cbn [fst snd]. split; [lia | exact Hval].
-  - cbn [scp_loop] in Hrun. unfold q_instances in Hrun. cbn [eb_instances eb_moc f0_base] in Hrun.
-    rewrite f0_instances_length in Hrun. unfold f0_moc in Hrun. rewrite Hu in Hrun.
-    destruct (compute_jth_prefix_of_permutations_with_copies (Z.of_nat f0_q) (Counters f0_cws) (Z.of_nat first_n) i memo)
-      as [[v memo']|e] eqn:Ec; [|discriminate]. cbn [lift rbind] in Hrun.
-    assert (Hrange : (0 <= i < cnt (StackProofs.cs_of (Z.of_nat f0_q) (Counters f0_cws)) (Z.of_nat first_n))%Z)
-      by (cbn [StackProofs.cs_of]; lia).
-    destruct (SessionProofs.unrank_dispatch_refines (Z.of_nat f0_q) (Counters f0_cws) (Z.of_nat first_n) memo i v memo'
-                f0_params_ok ltac:(lia) Hval Hrange Ec) as [(wd & Hv & _) Hval'].
-    subst v. cbn [kperm fst rbind snd] in Hrun.
-    destruct (rmap (zindex (map (fun _ : asg => 1%Z) f0_instances)) wd) as [ss|e] eqn:Ess; [|discriminate].
-    cbn [rbind] in Hrun. rewrite (prodZl_ones ss (rmap_zindex_ones _ _ _ Ess)) in Hrun.
-    destruct (IH (i + 1)%Z memo' (s + 1)%Z r Hval' ltac:(lia) ltac:(lia) Hrun) as [H1 H2].
-    split; [lia | exact H2].
-Qed.
-
-Lemma f0_count_solutions_w (first_n : nat) memo r : f0_unw = false ->
-  StackProofs.memo_valid (Z.of_nat f0_q) (Counters f0_cws) memo ->
-  count_solutions fb f0_base (Z.of_nat first_n) memo (map (fun _ => [0]) f0_instances) = ROk r ->
-  exists memo', r = ((f0_N first_n * prodZl (f0_inds (Z.of_nat first_n)))%Z, f0_shape first_n, memo') /\
-                StackProofs.memo_valid (Z.of_nat f0_q) (Counters f0_cws) memo'.
-Proof.
-  intros Hu Hval Hrun. pose proof f0_q_pos as Hq.
-  unfold count_solutions, q_instances in Hrun. cbn [eb_m eb_unweighted eb_instances eb_moc f0_base] in Hrun.
-  rewrite f0_instances_length in Hrun. rewrite Hu in Hrun. cbn [Z.eqb andb Pos.eqb] in Hrun.
-  rewrite andb_false_r in Hrun. unfold f0_moc in Hrun. rewrite Hu in Hrun.
-  destruct (count_prefixes_of_permutations_with_copies (Z.of_nat f0_q) (Counters f0_cws) (Z.of_nat first_n) memo)
-    as [[v memo1]|e] eqn:Ec; [|discriminate]. cbn [lift rbind] in Hrun.
-  destruct (SessionProofs.count_dispatch_refines (Z.of_nat f0_q) (Counters f0_cws) (Z.of_nat first_n) memo v memo1
-              f0_params_ok ltac:(lia) Hval Ec) as [Hv Hval1].
-  cbn [StackProofs.cs_of] in Hv. subst v. cbn [kcount fst rbind snd] in Hrun.
-  rewrite f0_combs_eq in Hrun. cbn [eb_mf f0_base] in Hrun. rewrite f0_ubi_eq in Hrun.
-  change (map (fun f => (Z.of_nat (length (nonexcluded_levels fb f)) ^ Z.of_nat first_n)%Z) f0_ubi)
-    with (f0_inds (Z.of_nat first_n)) in Hrun.
-  unfold sum_combination_products in Hrun. cbn [eb_moc f0_base] in Hrun. unfold f0_moc in Hrun. rewrite Hu in Hrun.
-  rewrite all_equal_ones in Hrun. cbn [andb] in Hrun.
-  unfold f0_shape. rewrite (f0_N_w first_n Hu).
-  destruct (all_equal_Z f0_cws).
-  - destruct f0_instances as [|i0 rest] eqn:Ei.
-    { exfalso. pose proof f0_instances_length as Hl. rewrite Ei in Hl. cbn in Hl. lia. }
-    cbn [map zindex Z.ltb Z.compare Z.to_nat nth_error of_opt rbind] in Hrun.
-    rewrite Z.pow_1_l in Hrun by lia. rewrite Z.mul_1_r in Hrun. inversion Hrun; subst r.
-    exists memo1. split; [reflexivity | exact Hval1].
-  - destruct (scp_loop f0_base (Z.to_nat (cnt f0_cws (Z.of_nat first_n))) 0 (Z.of_nat first_n)
-                       (map (fun _ : asg => 1%Z) f0_instances) memo1 0) as [[s' memo2]|e] eqn:Es; [|discriminate].
-    cbn [rbind] in Hrun. inversion Hrun; subst r.
-    pose proof (PrefixProofs.cnt_nonneg f0_cws (Z.of_nat first_n)) as Hnn.
-    destruct (scp_loop_inv first_n Hu (Z.to_nat (cnt f0_cws (Z.of_nat first_n))) 0%Z memo1 0%Z (s', memo2) Hval1
-                ltac:(lia) ltac:(lia) Es) as [H1 H2]. cbn [fst snd] in H1, H2.
-    exists memo2. split; [|exact H2]. rewrite H1. rewrite Z2Nat.id by lia. reflexivity.
-Qed.
-
-(** with weights: the memoised counter returns (C13 totality) *)
-Lemma scp_loop_total first_n : f0_unw = false -> forall cntn i memo s,
-  StackProofs.memo_valid (Z.of_nat f0_q) (Counters f0_cws) memo ->
-  (0 <= i)%Z -> (i + Z.of_nat cntn <= cnt f0_cws (Z.of_nat first_n))%Z ->
-  exists memo', scp_loop f0_base cntn i (Z.of_nat first_n) (map (fun _ => 1%Z) f0_instances) memo s = ROk ((s + Z.of_nat cntn)%Z, memo') /\
-                StackProofs.memo_valid (Z.of_nat f0_q) (Counters f0_cws) memo'.
-Proof.
-  intros Hu. induction cntn as [|k IH]; intros i memo s Hval Hi Hb.
-  - exists memo. cbn [scp_loop]. split; [f_equal; f_equal; lia | exact Hval].
-  - cbn [scp_loop]. unfold q_instances. cbn [eb_instances eb_moc f0_base].
-    rewrite f0_instances_length. unfold f0_moc. rewrite Hu.
-    assert (Hrange : (0 <= i < cnt (StackProofs.cs_of (Z.of_nat f0_q) (Counters f0_cws)) (Z.of_nat first_n))%Z)
-      by (cbn [StackProofs.cs_of]; lia).
-    destruct (TotalProofs.unrank_dispatch_total (Z.of_nat f0_q) (Counters f0_cws) (Z.of_nat first_n) memo i
-                f0_params_ok ltac:(lia) Hval Hrange) as (wd & memo' & Hc & Hbw & _ & Hval').
-    rewrite Hc. cbn [lift rbind kperm fst snd].
-    assert (Hss : rmap (zindex (map (fun _ : asg => 1%Z) f0_instances)) wd = ROk (map (fun _ => 1%Z) wd)).
-    { apply rmap_ok_map. intros p Hp. destruct Hbw as (_ & Hs & _). cbn [StackProofs.cs_of] in Hs.
-      unfold CombSpec.symbols_below in Hs. rewrite Forall_forall in Hs. specialize (Hs p Hp). rewrite f0_cws_length in Hs.
-      apply zindex_some; [lia|].
-      apply (map_nth_error (fun _ : asg => 1%Z) (Z.to_nat p) f0_instances (d := nth (Z.to_nat p) f0_instances [])).
-      apply nth_error_nth'. rewrite f0_instances_length. lia. }
-    rewrite Hss. cbn [rbind]. rewrite prodZl_ones by (intros x Hx; apply in_map_iff in Hx; destruct Hx as [? [? _]]; congruence).
-    destruct (IH (i + 1)%Z memo' (s + 1)%Z Hval' ltac:(lia) ltac:(lia)) as (memo'' & Hrun & Hv'').
-    exists memo''. rewrite Hrun. split; [f_equal; f_equal; lia | exact Hv''].
-Qed.
-
-Lemma f0_count_solutions_total (first_n : nat) memo : f0_unw = false ->
-  StackProofs.memo_valid (Z.of_nat f0_q) (Counters f0_cws) memo ->
-  exists memo', count_solutions fb f0_base (Z.of_nat first_n) memo (map (fun _ => [0]) f0_instances) =
-                ROk ((f0_N first_n * prodZl (f0_inds (Z.of_nat first_n)))%Z, f0_shape first_n, memo') /\
-                StackProofs.memo_valid (Z.of_nat f0_q) (Counters f0_cws) memo'.
-Proof.
-  intros Hu Hval. pose proof f0_q_pos as Hq.
-  unfold count_solutions, q_instances. cbn [eb_m eb_unweighted eb_instances eb_moc f0_base].
-  rewrite f0_instances_length. rewrite Hu. cbn [Z.eqb andb Pos.eqb]. rewrite andb_false_r. unfold f0_moc. rewrite Hu.
-  destruct (TotalProofs.count_dispatch_total (Z.of_nat f0_q) (Counters f0_cws) (Z.of_nat first_n) memo
-              f0_params_ok ltac:(lia) Hval) as (memo1 & Hc & Hval1).
-  cbn [StackProofs.cs_of] in Hc. rewrite Hc. cbn [lift rbind kcount fst snd].
-  rewrite f0_combs_eq. cbn [eb_mf f0_base]. rewrite f0_ubi_eq.
-  change (map (fun f => (Z.of_nat (length (nonexcluded_levels fb f)) ^ Z.of_nat first_n)%Z) f0_ubi)
-    with (f0_inds (Z.of_nat first_n)).
-  unfold sum_combination_products. cbn [eb_moc f0_base]. unfold f0_moc. rewrite Hu.
-  rewrite all_equal_ones. cbn [andb]. unfold f0_shape. rewrite (f0_N_w first_n Hu).
-  destruct (all_equal_Z f0_cws).
-  - destruct f0_instances as [|i0 rest] eqn:Ei.
-    { exfalso. pose proof f0_instances_length as Hl. rewrite Ei in Hl. cbn in Hl. lia. }
-    cbn [map zindex Z.ltb Z.compare Z.to_nat nth_error of_opt rbind].
-    rewrite Z.pow_1_l by lia. rewrite Z.mul_1_r. exists memo1. split; [reflexivity | exact Hval1].
-  - pose proof (PrefixProofs.cnt_nonneg f0_cws (Z.of_nat first_n)) as Hnn.
-    destruct (scp_loop_total first_n Hu (Z.to_nat (cnt f0_cws (Z.of_nat first_n))) 0%Z memo1 0%Z Hval1 ltac:(lia) ltac:(lia))
-      as (memo2 & Hrun & Hval2).
-    rewrite Hrun. cbn [rbind]. rewrite Z2Nat.id by lia. exists memo2. split; [reflexivity | exact Hval2].
-Qed.
-
-Definition f0_leftover : nat := fl_trials fb mod f0_C.
-Definition f0_rounds : nat := fl_trials fb / f0_C.
-
-Definition f0_enum (m lm : memo_t) : enumerator :=
-  {| en_base := f0_base; en_valid := map (fun _ => [0]) f0_instances;
-     en_ind_levels := map (fun f => (f, f0_L f)) f0_ubi;
-     en_count := (f0_N f0_C * prodZl (f0_inds (Z.of_nat f0_C)))%Z; en_shape := f0_shape f0_C; en_memo := m;
-     en_leftover := Z.of_nat f0_leftover;
-     en_lcount := if f0_leftover =? 0 then 1%Z else (f0_N f0_leftover * prodZl (f0_inds (Z.of_nat f0_leftover)))%Z;
-     en_lshape := if f0_leftover =? 0 then {| sh_cross := 0; sh_combs := []; sh_inds := [] |} else f0_shape f0_leftover;
-     en_lmemo := lm;
-     en_basic_levels := []; en_pcount := 1%Z |}.
-
-Lemma f0_leftover_lt : f0_leftover < f0_C.
-Proof. unfold f0_leftover. apply Nat.mod_upper_bound. pose proof f0_C_pos. lia. Qed.
-
-(** without weights the enumerator is total *)
-Lemma f0_make_enumerator_unw : f0_unw = true -> make_enumerator fb = ROk (f0_enum [] []).
-Proof.
-  intros Hu. pose proof f0_C_pos as HC. unfold make_enumerator. rewrite f0_enum_base. cbn [rbind].
+  intros Hu Hd. pose proof f0_C_pos as HC. unfold make_enumerator. rewrite f0_enum_base. cbn [rbind].
   rewrite f0_valid_sources. cbn [rbind]. cbn [eb_csize f0_base].
-  rewrite (f0_count_solutions_unw f0_C [] Hu (le_n _)). cbn [rbind].
+  rewrite (f0_count_solutions_plain f0_C [] Hu Hd (le_n _)). cbn [rbind].
   replace (Z.of_nat f0_C =? 0)%Z with false by (symmetry; apply Z.eqb_neq; lia).
   cbn [rbind eb_preamble f0_base]. unfold trials_Z. rewrite Z.sub_0_r.
   assert (Hmod : (Z.of_nat (fl_trials fb) mod Z.of_nat f0_C)%Z = Z.of_nat f0_leftover).
   { unfold f0_leftover. rewrite Nat2Z.inj_mod. reflexivity. }
-  rewrite Hmod. pose proof f0_leftover_lt as Hlo.
-  unfold f0_enum. destruct (f0_leftover =? 0) eqn:E.
-  - apply Nat.eqb_eq in E. rewrite E. cbn [Z.of_nat Z.eqb rbind]. cbn [eb_mf f0_base]. rewrite f0_ubi_eq. reflexivity.
+  rewrite Hmod. pose proof f0_leftover_lt as Hlo. unfold f0_enum_plain.
+  destruct (f0_leftover =? 0) eqn:E.
+  - apply Nat.eqb_eq in E. rewrite E. cbn [Z.of_nat Z.eqb rbind]. cbn [eb_mf f0_base]. rewrite f0_ubi_eq.
+    unfold f0_enum. rewrite E. reflexivity.
   - apply Nat.eqb_neq in E.
     replace (Z.of_nat f0_leftover =? 0)%Z with false by (symmetry; apply Z.eqb_neq; lia).
-    rewrite (f0_count_solutions_unw f0_leftover [] Hu) by lia. cbn [rbind eb_mf f0_base]. rewrite f0_ubi_eq. reflexivity.
+    rewrite (f0_count_solutions_plain f0_leftover [] Hu Hd ltac:(lia)). cbn [rbind eb_mf f0_base]. rewrite f0_ubi_eq.
+    unfold f0_enum. replace (f0_leftover =? 0) with false by (symmetry; apply Nat.eqb_neq; exact E). reflexivity.
 Qed.
 
-(** in general: what a successful construction returns *)
-Lemma f0_make_enumerator_inv en : make_enumerator fb = ROk en ->
-  exists m lm, en = f0_enum m lm /\ f0_memo_ok m /\ f0_memo_ok lm.
-Proof.
-  intros Hrun. destruct f0_unw eqn:Hu.
-  { rewrite (f0_make_enumerator_unw Hu) in Hrun. inversion Hrun; subst en.
-    exists [], []. split; [reflexivity|]. split; apply f0_memo_nil. }
-  pose proof f0_C_pos as HC. unfold make_enumerator in Hrun. rewrite f0_enum_base in Hrun. cbn [rbind] in Hrun.
-  rewrite f0_valid_sources in Hrun. cbn [rbind] in Hrun. cbn [eb_csize f0_base] in Hrun.
-  destruct (count_solutions fb f0_base (Z.of_nat f0_C) [] (map (fun _ : asg => [0]) f0_instances)) as [r1|e] eqn:E1; [|discriminate].
-  destruct (f0_count_solutions_w f0_C [] r1 Hu (StackProofs.memo_valid_nil _ _) E1) as [m [-> Hm]].
-  cbn [rbind] in Hrun.
-  replace (Z.of_nat f0_C =? 0)%Z with false in Hrun by (symmetry; apply Z.eqb_neq; lia).
-  cbn [rbind eb_preamble f0_base] in Hrun. unfold trials_Z in Hrun. rewrite Z.sub_0_r in Hrun.
-  assert (Hmod : (Z.of_nat (fl_trials fb) mod Z.of_nat f0_C)%Z = Z.of_nat f0_leftover).
-  { unfold f0_leftover. rewrite Nat2Z.inj_mod. reflexivity. }
-  rewrite Hmod in Hrun. pose proof f0_leftover_lt as Hlo.
-  destruct (f0_leftover =? 0) eqn:E.
-  - apply Nat.eqb_eq in E. rewrite E in Hrun. cbn [Z.of_nat Z.eqb rbind] in Hrun. cbn [eb_mf f0_base] in Hrun.
-    rewrite f0_ubi_eq in Hrun. inversion Hrun; subst en. exists m, []. split.
-    + unfold f0_enum. rewrite E. reflexivity.
-    + split; [intros _; exact Hm | apply f0_memo_nil].
-  - apply Nat.eqb_neq in E.
-    replace (Z.of_nat f0_leftover =? 0)%Z with false in Hrun by (symmetry; apply Z.eqb_neq; lia).
-    destruct (count_solutions fb f0_base (Z.of_nat f0_leftover) [] (map (fun _ : asg => [0]) f0_instances)) as [r2|e] eqn:E2; [|discriminate].
-    destruct (f0_count_solutions_w f0_leftover [] r2 Hu (StackProofs.memo_valid_nil _ _) E2) as [lm [-> Hlm]].
-    cbn [rbind eb_mf f0_base] in Hrun. rewrite f0_ubi_eq in Hrun. inversion Hrun; subst en. exists m, lm. split.
-    + unfold f0_enum. replace (f0_leftover =? 0) with false by (symmetry; apply Nat.eqb_neq; exact E). reflexivity.
-    + split; intros _; assumption.
-Qed.
-
-(** the enumerator is always built *)
-Lemma f0_make_enumerator_total : exists m lm, make_enumerator fb = ROk (f0_enum m lm) /\ f0_memo_ok m /\ f0_memo_ok lm.
-Proof.
-  destruct f0_unw eqn:Hu.
-  { exists [], []. split; [apply (f0_make_enumerator_unw Hu)|]. split; apply f0_memo_nil. }
-  pose proof f0_C_pos as HC. unfold make_enumerator. rewrite f0_enum_base. cbn [rbind].
-  rewrite f0_valid_sources. cbn [rbind]. cbn [eb_csize f0_base].
-  destruct (f0_count_solutions_total f0_C [] Hu (StackProofs.memo_valid_nil _ _)) as (m & E1 & Hm).
-  rewrite E1. cbn [rbind].
-  replace (Z.of_nat f0_C =? 0)%Z with false by (symmetry; apply Z.eqb_neq; lia).
-  cbn [rbind eb_preamble f0_base]. unfold trials_Z. rewrite Z.sub_0_r.
-  assert (Hmod : (Z.of_nat (fl_trials fb) mod Z.of_nat f0_C)%Z = Z.of_nat f0_leftover).
-  { unfold f0_leftover. rewrite Nat2Z.inj_mod. reflexivity. }
-  rewrite Hmod. pose proof f0_leftover_lt as Hlo.
-  destruct (f0_leftover =? 0) eqn:E.
-  - apply Nat.eqb_eq in E. exists m, []. rewrite E. cbn [Z.of_nat Z.eqb rbind]. cbn [eb_mf f0_base]. rewrite f0_ubi_eq.
-    split; [unfold f0_enum; rewrite E; reflexivity|]. split; [intros _; exact Hm | apply f0_memo_nil].
-  - apply Nat.eqb_neq in E.
-    replace (Z.of_nat f0_leftover =? 0)%Z with false by (symmetry; apply Z.eqb_neq; lia).
-    destruct (f0_count_solutions_total f0_leftover [] Hu (StackProofs.memo_valid_nil _ _)) as (lm & E2 & Hlm).
-    rewrite E2. cbn [rbind eb_mf f0_base]. rewrite f0_ubi_eq. exists m, lm.
-    split; [unfold f0_enum; replace (f0_leftover =? 0) with false by (symmetry; apply Nat.eqb_neq; exact E); reflexivity|].
-    split; intros _; assumption.
-Qed.
+Lemma f0_count_pos_full : (0 < f0_count f0_C)%Z.
+Proof. unfold f0_count. apply Z.mul_pos_pos; [apply f0_N_pos_full | apply f0_inds_pos]. Qed.
 
 End F0.
